@@ -260,13 +260,14 @@ class Hooks:
 
 
 class Engine:
-    def __init__(self, funcs, hooks, prune_ms=250, max_paths=20000, int_div_lemmas=True):
+    def __init__(self, funcs, hooks, prune_ms=250, max_paths=20000, int_div_lemmas=True, prune_logic="QF_LIA"):
         self.funcs = funcs            # name -> ast.FunctionDef (methods of the class under contract + module functions)
         self.hooks = hooks
         self.prune_ms = prune_ms
         self.max_paths = max_paths
         self.nforks = 0
         self.nofork = 0
+        self.prune_logic = prune_logic   # None: general solver (needed when path conditions mention strings)
         self.int_div_lemmas = int_div_lemmas
 
     # ------------------------------------------------------------------ driver
@@ -326,7 +327,7 @@ class Engine:
         self.obligations.append((name, list(self.pc), cond))
 
     def feasible(self, extra):
-        s = z3.SolverFor("QF_LIA")
+        s = z3.SolverFor(self.prune_logic) if self.prune_logic else z3.Solver()
         s.set("timeout", self.prune_ms)
         for c in self.pc + [extra]:
             if is_linear(c):
